@@ -519,8 +519,8 @@ MUTANTS = [
     ('overlap-neg-position', 'miasmx/expression/expression_eval_abstract.py', "                        out.append((ee, 0, ee.get_size()))\n", "                        out.append((ee, off_base, off_base+ee.get_size()))\n", 'C07.D6'),
     ('overlap-unsorted', 'miasmx/expression/expression_eval_abstract.py', "                    out = sorted(out, key=lambda x:x[1])\n                    missing_slice", "                    missing_slice", 'C07.D6'),
     ('rest-slice-last', 'miasmx/expression/expression_eval_abstract.py', "        if last != stop:\n            o.append((b, stop))", "        if last != stop:\n            o.append((a, stop))", 'C07.D6'),
-    ('rep-zf-before-dec', 'miasmx/tools/emul_helper.py', '            info = l.opmode, l.admode\n            machine.eval_instr(mov(info, ecx, ExprOp(\'-\', my_ecx, ExprInt(uint32(1)))))\n            machine.eval_expr(machine.pool[ecx], {})\n\n            if zf_w :\n                my_zf = machine.eval_expr(machine.pool[zf], {})\n                if not isinstance(my_zf, ExprInt):\n                    # the termination test cannot be decided\n                    raise ValueError(\'Emulation fails for "%s". ZF value is %s\'\n                        % (l, str(my_zf)))\n                if 0xF3 in l.prefix and isinstance(my_zf, ExprInt) and my_zf.arg == 0:\n                    break\n                if 0xF2 in l.prefix and isinstance(my_zf, ExprInt) and my_zf.arg == 1:\n                    break\n',
-     '            if zf_w :\n                my_zf = machine.eval_expr(machine.pool[zf], {})\n                if not isinstance(my_zf, ExprInt):\n                    # the termination test cannot be decided\n                    raise ValueError(\'Emulation fails for "%s". ZF value is %s\'\n                        % (l, str(my_zf)))\n                if 0xF3 in l.prefix and isinstance(my_zf, ExprInt) and my_zf.arg == 0:\n                    break\n                if 0xF2 in l.prefix and isinstance(my_zf, ExprInt) and my_zf.arg == 1:\n                    break\n            info = l.opmode, l.admode\n            machine.eval_instr(mov(info, ecx, ExprOp(\'-\', my_ecx, ExprInt(uint32(1)))))\n            machine.eval_expr(machine.pool[ecx], {})\n\n', 'C07.D5'),
+    ('rep-zf-before-dec', 'miasmx/tools/emul_helper.py', '            info = l.opmode, l.admode\n            machine.eval_instr(mov(info, ecx, ExprOp(\'-\', my_ecx, ExprInt(uint32(1)))))\n\n            if zf_w :\n                my_zf = machine.get_reg(zf)\n                if not isinstance(my_zf, ExprInt):\n                    # the termination test cannot be decided\n                    raise ValueError(\'Emulation fails for "%s". ZF value is %s\'\n                        % (l, str(my_zf)))\n                if 0xF3 in l.prefix and isinstance(my_zf, ExprInt) and my_zf.arg == 0:\n                    break\n                if 0xF2 in l.prefix and isinstance(my_zf, ExprInt) and my_zf.arg == 1:\n                    break\n',
+     '            if zf_w :\n                my_zf = machine.get_reg(zf)\n                if not isinstance(my_zf, ExprInt):\n                    # the termination test cannot be decided\n                    raise ValueError(\'Emulation fails for "%s". ZF value is %s\'\n                        % (l, str(my_zf)))\n                if 0xF3 in l.prefix and isinstance(my_zf, ExprInt) and my_zf.arg == 0:\n                    break\n                if 0xF2 in l.prefix and isinstance(my_zf, ExprInt) and my_zf.arg == 1:\n                    break\n            info = l.opmode, l.admode\n            machine.eval_instr(mov(info, ecx, ExprOp(\'-\', my_ecx, ExprInt(uint32(1)))))\n\n', 'C07.D5'),
     ('rep-memdst-unbound', 'miasmx/tools/emul_helper.py', "        tsc_inc = 0\n        mem_dst = []\n", "        tsc_inc = 0\n", 'C07.D5'),
     ('pool-write-in-read-phase', 'miasmx/expression/expression_eval_abstract.py',
      '            elif isinstance(e.dst, ExprId):\n                pool_out[e.dst] = src\n',
